@@ -102,6 +102,15 @@ def cases(ctx):
             C.append(dict(proto=p, op=op, oids=[oids[0]], vals=[("Integer", 1)], reqid=r, nr=0, mr=3))
     for o in oids:
         C.append(dict(proto=rnd.choice(PROTOS), op="multiget", oids=[o, oids[0]], reqid=rnd.choice(REQIDS), nr=0, mr=0))
+    # the pythonic wrapper emits the same requests (OIDs as strings, with and without a leading dot)
+    for proto in ("v1", "v2c", "v3a_md5"):
+        for op in ("get", "multiget", "getnext", "set", "multiset", "bulkget", "walk", "bulkwalk"):
+            if proto == "v1" and op.startswith("bulk"):
+                continue
+            for dot in (False, True):
+                os_ = [oids[0]] if op in ("get", "getnext", "set", "walk", "bulkwalk") else [oids[0], (1, 3, 6, 1, 2, 1, 2, 2, 1, 10, 1)]
+                C.append(dict(proto=proto, op=op, py=True, dot=dot, oids=os_, vals=[rnd.choice(vals) for _ in os_], reqid=rnd.choice(REQIDS), nr=1 if op == "bulkget" else 0,
+                              mr=5 if op.startswith("bulk") else 0))
     # credentials switched after construction: the datagram follows the credentials in force
     for ini in ("v1", "v2c", "v3n", "v3a_md5"):
         for proto in ("v1", "v2c", "v3n", "v3p_sha"):
